@@ -12,3 +12,13 @@ c10_eligible = mc_c10.eligible
 c10_units = lambda valid: [0]
 c10_build = mc_c10.build(FAMILY, 1)
 c10_attempts = mc_c10.attempts
+
+
+def c10_plan_request(valid, unit, v, r):
+    """model-driver request for the SPEC's plan script of this (base, vector, r) — see props/families/valve.py; theorems
+    C10_mcbedrock_query_* (Props/C10_mcbedrock_whole.lean)"""
+    import re
+    m = re.fullmatch(r"mb(\d+)_(\d+)", valid.id)
+    if not m:
+        return None
+    return f"mcbedrockplan {m.group(1)} {m.group(2)} {r} {v}"
